@@ -1,12 +1,14 @@
 package props
 
 import (
+	"os"
 	"fmt"
 	"net/http"
 	"strings"
 
 	z "github.com/Oudwins/zog"
 	"github.com/Oudwins/zog/parsers/zjson"
+	"github.com/Oudwins/zog/zenv"
 	"github.com/Oudwins/zog/zhttp"
 
 	"zogverif/internal/core"
@@ -106,6 +108,91 @@ func c14Directed(c *core.Ctx) bool {
 	}
 	if res["form"] != res["map"] || res["query"] != res["map"] {
 		c.Violation("front-end-destination-differs|single-blank-list-parameter", map[string]any{"schema": "{tags: Slice(String()).Required()} keyed tags[]", "record": "tags[] = [\"\"] (Go map) / tags[]= (form, query)", "results": res})
+		return false
+	}
+	// (c) a parameter sent twice for a number field is a list where a number is expected - in every front end
+	type person struct {
+		Age int `json:"age" form:"age" query:"age"`
+	}
+	asch := func() *z.StructSchema { return z.Struct(z.Schema{"age": z.Int()}) }
+	res2 := map[string]string{}
+	for _, f := range []string{"map", "zjson", "form", "query"} {
+		var d person
+		var data any
+		switch f {
+		case "map":
+			data = map[string]any{"age": []any{"30", "31"}}
+		case "zjson":
+			data = zjson.Decode(strings.NewReader(`{"age":["30","31"]}`))
+		case "form":
+			r, _ := http.NewRequest("POST", "/x", strings.NewReader("age=30&age=31"))
+			r.Header.Set("Content-Type", "application/x-www-form-urlencoded")
+			data = zhttp.Request(r)
+		default:
+			r, _ := http.NewRequest("GET", "/x?age=30&age=31", nil)
+			data = zhttp.Request(r)
+		}
+		m := asch().Parse(data, &d)
+		c.Eval(1)
+		code := ""
+		if len(m["age"]) == 1 {
+			code = m["age"][0].Code
+		}
+		res2[f] = fmt.Sprintf("age=%d issue=%s", d.Age, code)
+	}
+	for f, r := range res2 {
+		if r != "age=0 issue=coerce" {
+			c.Violation("front-end-issues-differ|"+f+"|repeated-parameter-for-a-number", map[string]any{"schema": "{age: Int()}", "record": "age = [30, 31]", "results": res2})
+			return false
+		}
+	}
+	// (d) a nested object that is null, missing or empty reports its fields under the same keys
+	type adr struct {
+		Street string `json:"street_name" zog:"st"`
+	}
+	type cust struct {
+		Address adr   `json:"address"`
+		Others  []adr `json:"others"`
+	}
+	csch := func() *z.StructSchema {
+		a := func() *z.StructSchema { return z.Struct(z.Schema{"street": z.String().Required()}) }
+		return z.Struct(z.Schema{"address": a(), "others": z.Slice(a())})
+	}
+	keys := map[string]string{}
+	for _, doc := range []string{`{"address":{},"others":[{}]}`, `{"address":null,"others":[null]}`, `{"x":1,"others":[{"y":1}]}`} {
+		var d cust
+		keys[doc] = dKeys(csch().Parse(zjson.Decode(strings.NewReader(doc)), &d))
+		c.Eval(1)
+	}
+	for doc, k := range keys {
+		if k != "address.street_name, others[0].street_name" {
+			c.Violation("front-end-issues-differ|zjson|null-or-missing-nested-object", map[string]any{"schema": "{address: Struct{street: Required}, others: Slice(Struct{street: Required})}; Street `json:street_name zog:st`", "document": doc, "keys_per_document": keys, "want": "address.street_name, others[0].street_name"})
+			return false
+		}
+	}
+	// (e) an absent leaf is the same absent leaf in every flat source: a Preprocess over string sees "" from an unset variable as it
+	// does from a missing parameter
+	envCalls, qCalls := []string{}, []string{}
+	type hostsT struct {
+		Hosts []string `env:"ZZC14_HOSTS" query:"hosts"`
+	}
+	mkH := func(log *[]string) *z.StructSchema {
+		return z.Struct(z.Schema{"hosts": z.Preprocess(func(s string, ctx z.Ctx) ([]string, error) {
+			*log = append(*log, s)
+			if s == "" {
+				return []string{"localhost"}, nil
+			}
+			return strings.Split(s, ","), nil
+		}, z.Slice(z.String()))})
+	}
+	os.Unsetenv("ZZC14_HOSTS")
+	var he, hq hostsT
+	me := mkH(&envCalls).Parse(zenv.NewDataProvider(), &he)
+	rq, _ := http.NewRequest("GET", "/x?other=1", nil)
+	mq := mkH(&qCalls).Parse(zhttp.Request(rq), &hq)
+	c.Eval(2)
+	if fmt.Sprint(envCalls) != fmt.Sprint(qCalls) || fmt.Sprint(he.Hosts) != fmt.Sprint(hq.Hosts) || len(me) != len(mq) {
+		c.Violation("front-end-destination-differs|env|absent-leaf-in-front-of-a-preprocess", map[string]any{"schema": "{hosts: Preprocess(func(s string) []string, Slice(String()))}", "environment (variable unset)": fmt.Sprintf("function called with %q, destination %v, %d issue keys", envCalls, he.Hosts, len(me)), "query string (parameter missing)": fmt.Sprintf("function called with %q, destination %v, %d issue keys", qCalls, hq.Hosts, len(mq))})
 		return false
 	}
 	c.Count("directed_front_end_scenarios", 1)
